@@ -23,6 +23,7 @@ from vf.ref import regexsem as rs
 from vf.worker import call
 
 PROP = "C19"
+TECHNIQUE = "history monitor: seeded call histories over an object pool, online frame check of every object's structure signature, offline event-log checker comparing each answer with a fresh twin rebuilt from provenance"
 RULE = ("seeded random histories (10-40 steps) over an object pool (automata of the three classes, regexes, CFGs, "
         "PDAs, FSTs, indexed grammars) of public queries, conversions, binary operations with another pool object or "
         "itself, conversions of conversions, and mutations of returned objects through their public mutators; plus "
